@@ -308,7 +308,15 @@ def stage_requests(w, rng, policy, n_cases, stats):
             hs = list(sdn.get_hinstances(n, recursive=True))
             if hs:
                 root = rng.choice(hs)
-        st, U = qo.call(fname, root, rec=rec)
+        sel = None
+        if rng.random() < 0.5:
+            # any kind of root, any selection (finding C13-K6, repaired: the patterns apply to every reference found)
+            toks = [t for t in qo.all_roots(w, rng, per_kind=1, hrefs=3, lists=0) if t[0] != 'L']
+            if toks:
+                root = qo.resolve_root(w, rng.choice(toks))
+            if qo.FUNCS[fname][0]:
+                sel = rng.choice(qo.FUNCS[fname][0])
+        st, U = qo.call(fname, root, sel=sel, rec=rec)
         if st != 'ok' or len(U) != len(set(U)):
             continue
         names = {}
@@ -319,12 +327,13 @@ def stage_requests(w, rng, policy, n_cases, stats):
                                                len(U), ' '.join('%d %s' % (k, tok_of_s(names[k])) for k in range(len(U))),
                                                len(U), ' '.join(str(k) for k in range(len(U))))
         line = ' '.join(line.split())
-        st, R = qo.call(fname, root, pats, None, is_case, is_re, None, rec)
+        st, R = qo.call(fname, root, pats, None, is_case, is_re, sel, rec)
         idx = dict((e, k) for k, e in enumerate(U))
         impl = 'ERR ' + st if st != 'ok' else (','.join(str(x) for x in sorted(idx.get(e, -1) for e in R)) or '-')
         stats['stage:%s' % fname] += 1
-        reqs.append((dict(level='stage', function=fname, roots=[qo.elem_tok(w, root) if isinstance(root, qo.HRef) else 'E%d' % w.index[id(root)]],
-                          recursive=rec, pats=pats, is_case=is_case, is_re=is_re, shape=shape, policy=policy, request=line), line, impl))
+        stats['stage_hier_root:%s' % ('href' if isinstance(root, qo.HRef) else type(root).__name__)] += 1
+        reqs.append((dict(level='stage', function=fname, roots=[qo.elem_tok(w, root)],
+                          recursive=rec, selection=sel, pats=pats, is_case=is_case, is_re=is_re, shape=shape, policy=policy, request=line), line, impl))
     return reqs
 
 
